@@ -6,10 +6,14 @@ import Operon.Gen.MitoCaps
 Model: `Operon/Model/MitoTools.lean`.  The two booleans "a capability test dominates `tool.execute`" are
 regenerated from the source on every run (`Operon/Gen/MitoCaps.lean`, extractor `harness/vf/extract/e1_caps.py`);
 the behaviour is tied to the code by the differential correspondence of `harness/vf/props/c03.py`.
-Quantifiers: every ceiling (`none`, empty, any list), every registry history (registration and re-registration
-interleaved with calls), every entry point, every provider behaviour (`rounds` is an arbitrary list of requested
-calls), every tool-body behaviour (return / raise), whatever the ROS latch, length guard and pathway detection
-decide.
+Quantifiers: every ceiling (`none`, empty, any list of tags - core `Capability` members and foreign tags alike),
+every registry history (registration, re-registration of the same or another callable under a taken name,
+re-declaration on the live object, removal - interleaved with calls AND happening while a call is in flight, i.e.
+during the evaluation of its arguments), every entry point, every provider behaviour (`rounds` is an arbitrary list
+of requested calls, the provider may use the registration API between rounds), every tool-body behaviour
+(return / raise), whatever the ROS latch, length guard and pathway detection decide.  The ceiling is the public
+attribute `allowed_capabilities`; re-assigning it on the live engine is an operation of the history and every
+execution is judged against the ceiling in force (`Ev.ceiling`).
 -/
 namespace Operon.MitoTools
 open Operon.Gen.MitoCaps
@@ -17,63 +21,179 @@ open Operon.Gen.MitoCaps
 /-- The source as it is now guards both execution paths, and has no other `.execute(...)` site. -/
 theorem c03_guards_extracted : guards = ⟨true, true⟩ ∧ otherExecuteSites = [] := by decide
 
-/-- **The ceiling test of the source is the model's `permitted`** on the complete table over a 3-capability universe
+/-- **The ceiling test of the source is the model's `permitted`** on the complete table over a 3-tag universe
     (729 rows: every ceiling x every way of declaring capabilities), obtained by running the real `execute_tool_call`
-    with a counting tool body.  The code handles capabilities uniformly (set operations only), so the table covers the
-    decision logic: fallback from `required_capabilities` to `capabilities`, empty vs. absent, `None` vs. empty ceiling. -/
+    with a counting tool body.  The universe mixes the kinds of tag a declaration may hold - a core `Capability`
+    member, a plain string equal to that member's value, a member of a foreign Enum with the same name and value - so
+    a test that looks at anything but the tag itself (its value, its name, a table of the core members) changes the
+    table.  The code handles tags uniformly (set operations only), so the table covers the decision logic: fallback
+    from `required_capabilities` to `capabilities`, empty vs. absent, `None` vs. empty ceiling. -/
 theorem c03_permitted_table_agrees :
     ∃ rows, permTable = some rows ∧ rows.length = 729 ∧
       rows.all (fun r => permitted r.1 ⟨0, r.2.1, r.2.2.1, false⟩ == r.2.2.2) = true := by
   refine ⟨_, rfl, by decide +kernel, by decide +kernel⟩
 
-/-- **Least privilege, all entry points, all histories.**  Every tool body that ever ran had its required
-    capabilities (as declared by the object registered at that moment) inside the ceiling. -/
-theorem c03_least_privilege (allowed : Option (List Cap)) (ops : List Op) :
-    ∀ t ∈ (run guards allowed {} ops).events, permitted allowed t = true := by
+/-- **Registering a taken name replaces the object, through every registration entry point.**  The real constructor
+    `tools=`, `engulf_tool` (SimpleTool / hand-written object) and `register_function` are evaluated on every pair of
+    styles x same callable or another x declarations (96 rows, regenerated each run): the registry then holds the
+    SECOND registration, and `execute_tool_call` under the empty ceiling runs a body exactly when the model - registry
+    update `Registry.set` twice, then `executeToolCall` - runs the second tool, i.e. exactly when the declaration
+    registered NOW is inside the ceiling. -/
+theorem c03_registration_table_agrees :
+    ∃ rows, regTable = some rows ∧ rows.length = 96 ∧
+      rows.all (fun r =>
+        let t1 : Tool := ⟨1, some r.2.2.2.1, none, false⟩
+        let t2 : Tool := ⟨if r.2.2.1 then 1 else 2, some r.2.2.2.2.1, none, false⟩
+        let s : St := { reg := Registry.set (Registry.set [] "t" t1) "t" t2, allowed := some [] }
+        r.2.2.2.2.2.1 &&
+          (((executeToolCall ⟨true, true⟩ s "t" []).1.events.map (·.tool) == [t2]) == r.2.2.2.2.2.2) &&
+          (permitted (some []) t2 == r.2.2.2.2.2.2)) = true := by
+  refine ⟨_, rfl, by decide +kernel, by decide +kernel⟩
+
+/-- **Least privilege, all entry points, all histories** (from any start state whose log is clean; ceiling
+    re-assignment, in-flight registration and provider-side registration included).  Every tool body that ever ran
+    had its required capabilities (as declared by the object that was vetted and run) inside the ceiling in force. -/
+theorem c03_least_privilege_in_force (allowed : Option (List Cap)) (ops : List Op) :
+    ∀ e ∈ (run guards (init allowed) ops).events, permitted e.ceiling e.tool = true := by
   rw [c03_guards_extracted.1]
-  exact run_events allowed ops {} (by simp)
+  exact run_events ops (init allowed) (by simp [init])
+
+/-- **Least privilege as the property states it**: an engine constructed with `allowed` whose ceiling attribute is
+    not re-assigned never runs a tool outside `allowed`, on any entry point, for any history. -/
+theorem c03_least_privilege (allowed : Option (List Cap)) (ops : List Op)
+    (hno : ∀ op ∈ ops, op.isSetCeiling = false) :
+    ∀ e ∈ (run guards (init allowed) ops).events, permitted allowed e.tool = true := by
+  intro e he
+  have h1 := c03_least_privilege_in_force allowed ops e he
+  rw [c03_guards_extracted.1] at he
+  have h2 := (run_events_fixed ops (init allowed) hno (by simp [init])).2 e he
+  rw [h2] at h1
+  exact h1
 
 /-- spelled out for a restricted engine: required ⊆ allowed for every executed tool -/
-theorem c03_least_privilege_subset (al : List Cap) (ops : List Op) :
-    ∀ t ∈ (run guards (some al) {} ops).events, ∀ c ∈ t.required, c ∈ al := by
-  intro t ht c hc
-  have h := c03_least_privilege (some al) ops t ht
+theorem c03_least_privilege_subset (al : List Cap) (ops : List Op) (hno : ∀ op ∈ ops, op.isSetCeiling = false) :
+    ∀ e ∈ (run guards (init (some al)) ops).events, ∀ c ∈ e.tool.required, c ∈ al := by
+  intro e he c hc
+  have h := c03_least_privilege (some al) ops hno e he
   simp only [permitted, subset, List.all_eq_true] at h
   have := h c hc
   simpa using this
 
 /-- **Refusal is a failure without effect** (expression pathway): a registered tool outside the ceiling is
-    refused with a failure result and no tool body runs, whatever the arguments. -/
-theorem c03_refusal_is_failure_without_effect_metabolize (allowed : Option (List Cap)) (s : St) (n : String)
-    (t : Tool) (argsOk : Bool) (hl : s.reg.lookup n = some t) (hp : permitted allowed t = false) :
-    (metabolize guards allowed s .oxidative (.name n) argsOk).2 = .failure "PermissionError" ∧
-    (metabolize guards allowed s .oxidative (.name n) argsOk).1.events = s.events := by
+    refused with a failure result; no tool body runs and the arguments are not even evaluated (the registry is
+    untouched, whatever their evaluation would have done). -/
+theorem c03_refusal_is_failure_without_effect_metabolize (s : St) (n : String)
+    (t : Tool) (argsOk : Bool) (ops : List RegOp) (hl : s.reg.lookup n = some t) (hp : permitted s.allowed t = false) :
+    (metabolize guards s .oxidative (.name n) argsOk ops).2 = .failure "PermissionError" ∧
+    (metabolize guards s .oxidative (.name n) argsOk ops).1.events = s.events ∧
+    (metabolize guards s .oxidative (.name n) argsOk ops).1.reg = s.reg := by
   rw [c03_guards_extracted.1]
   simp [metabolize, oxidative, hl, hp]
 
 /-- **Refusal is a failure without effect** (structured tool call). -/
-theorem c03_refusal_is_failure_without_effect_call (allowed : Option (List Cap)) (s : St) (n : String)
-    (t : Tool) (hl : s.reg.lookup n = some t) (hp : permitted allowed t = false) :
-    (executeToolCall guards allowed s n).2 = .failure "PermissionError" ∧
-    (executeToolCall guards allowed s n).1.events = s.events := by
+theorem c03_refusal_is_failure_without_effect_call (s : St) (n : String)
+    (t : Tool) (ops : List RegOp) (hl : s.reg.lookup n = some t) (hp : permitted s.allowed t = false) :
+    (executeToolCall guards s n ops).2 = .failure "PermissionError" ∧
+    (executeToolCall guards s n ops).1.events = s.events ∧
+    (executeToolCall guards s n ops).1.reg = s.reg := by
   rw [c03_guards_extracted.1]
   simp [executeToolCall, hl, hp]
 
-/-- **The LLM tool loop forwards only checked calls**: whatever the provider requests, for however many rounds,
-    the loop only appends permitted tools to the execution log and leaves the registry alone. -/
-theorem c03_loop_forwards_only_checked (allowed : Option (List Cap)) (k : Nat) (s : St)
-    (rounds : List (List String)) :
-    ∃ new, (toolLoop guards allowed k s rounds).1.events = s.events ++ new ∧
-      ∀ t ∈ new, permitted allowed t = true := by
+/-- **The tool that is vetted is the tool that runs** (expression pathway).  Whatever the evaluation of the
+    arguments does to the registry - re-register the requested name with a more privileged tool, remove it - a
+    request either runs nothing, or runs exactly the object that was registered under the name when the request
+    arrived, and that object is within the ceiling. -/
+theorem c03_vetted_is_executed_metabolize (s : St) (pre : Pre) (n : String) (argsOk : Bool) (ops : List RegOp) :
+    (metabolize guards s pre (.name n) argsOk ops).1.events = s.events ∨
+    ∃ t, s.reg.lookup n = some t ∧ permitted s.allowed t = true ∧
+      (metabolize guards s pre (.name n) argsOk ops).1.events = s.events ++ [⟨t, s.allowed⟩] := by
   rw [c03_guards_extracted.1]
-  exact (toolLoop_ext allowed k rounds s).2
+  cases pre with
+  | tooLong => left; rfl
+  | rosLatched => left; rfl
+  | otherPathway b => cases b <;> (left; rfl)
+  | oxidative =>
+    simp only [metabolize, oxidative]
+    cases hl : s.reg.lookup n with
+    | none => left; rfl
+    | some t =>
+      by_cases hp : permitted s.allowed t = true
+      · cases argsOk
+        · left; simp [hp, during]
+        · right
+          refine ⟨t, rfl, hp, ?_⟩
+          simp only [hp, runBody, during]
+          cases t.raises <;> simp
+      · left
+        simp only [Bool.not_eq_true] at hp
+        simp [hp]
 
-/-- A tool that was removed from the registry (or never registered) is never run: every executed tool was, at that
-    moment, the object registered under the requested name. -/
-theorem c03_only_currently_registered (allowed : Option (List Cap)) (s : St) (n : String)
+/-- **The tool that is vetted is the tool that runs** (structured tool call; `ops` = what evaluating
+    `**call.arguments` does to the registry). -/
+theorem c03_vetted_is_executed_call (s : St) (n : String) (ops : List RegOp) :
+    (executeToolCall guards s n ops).1.events = s.events ∨
+    ∃ t, s.reg.lookup n = some t ∧ permitted s.allowed t = true ∧
+      (executeToolCall guards s n ops).1.events = s.events ++ [⟨t, s.allowed⟩] := by
+  rw [c03_guards_extracted.1]
+  simp only [executeToolCall]
+  cases hl : s.reg.lookup n with
+  | none => left; rfl
+  | some t =>
+    by_cases hp : permitted s.allowed t = true
+    · right
+      refine ⟨t, rfl, hp, ?_⟩
+      simp only [hp, runBody, during]
+      cases t.raises <;> simp
+    · left
+      simp only [Bool.not_eq_true] at hp
+      simp [hp]
+
+/-- **The LLM tool loop forwards only checked calls**: whatever the provider requests, for however many rounds,
+    and whatever it registers between rounds or through the arguments of its calls, the loop only appends tools
+    permitted under the ceiling to the execution log and leaves the ceiling alone. -/
+theorem c03_loop_forwards_only_checked (k : Nat) (auto : Bool) (s : St) (rounds : List Round) :
+    (toolLoop guards k auto s rounds).1.allowed = s.allowed ∧
+    ∃ new, (toolLoop guards k auto s rounds).1.events = s.events ++ new ∧
+      ∀ e ∈ new, e.ceiling = s.allowed ∧ permitted s.allowed e.tool = true := by
+  rw [c03_guards_extracted.1]
+  exact toolLoop_ext k auto rounds s
+
+/-- with `auto_execute=False` the loop runs nothing at all -/
+theorem c03_loop_without_auto_execute_runs_nothing (k : Nat) (s : St) (rounds : List Round) :
+    (toolLoop guards k false s rounds).1.events = s.events := by
+  cases k with
+  | zero => simp [toolLoop]
+  | succ k => cases rounds <;> simp [toolLoop, during]
+
+/-- **The declaration registered NOW decides**: registering under a name - first registration or re-registration,
+    same callable or another one, whatever object held the name before - makes exactly that object the one that is
+    looked up, so its declaration is the one the ceiling is tested against. -/
+theorem c03_registration_replaces (r : Registry) (n : String) (t : Tool) : (r.set n t).lookup n = some t :=
+  lookup_set r n t
+
+/-- consequence for the history `register n t ; request n` with `t` outside the ceiling - in particular the same
+    callable registered a second time with a tighter declaration: refused on both paths, nothing runs. -/
+theorem c03_reregistered_outside_ceiling_is_refused (s : St) (n : String) (t : Tool) (argsOk : Bool)
+    (ops : List RegOp) (hp : permitted s.allowed t = false) :
+    (run guards s [.register n t, .call n ops]).events = s.events ∧
+    (run guards s [.register n t, .metabolize .oxidative (.name n) argsOk ops]).events = s.events := by
+  have hl : ({ s with reg := s.reg.set n t } : St).reg.lookup n = some t := c03_registration_replaces s.reg n t
+  constructor
+  · exact (c03_refusal_is_failure_without_effect_call { s with reg := s.reg.set n t } n t ops hl hp).2.1
+  · exact (c03_refusal_is_failure_without_effect_metabolize { s with reg := s.reg.set n t } n t argsOk ops hl hp).2.1
+
+/-- re-declaration on the live object (`tool.required_capabilities = …`) is what the next request is judged by -/
+theorem c03_redeclaration_decides (r : Registry) (n : String) (t : Tool) (req caps : Option (List Cap))
+    (hl : r.lookup n = some t) :
+    (r.redeclare n req caps).lookup n = some { t with req := req, caps := caps } :=
+  lookup_redeclare r n t req caps hl
+
+/-- A tool that was removed from the registry (or never registered) is never run: every executed tool was the object
+    registered under the requested name when the request arrived. -/
+theorem c03_only_currently_registered (s : St) (n : String) (ops : List RegOp)
     (hl : s.reg.lookup n = none) :
-    (executeToolCall guards allowed s n).1.events = s.events ∧
-    (metabolize guards allowed s .oxidative (.name n) true).1.events = s.events := by
+    (executeToolCall guards s n ops).1.events = s.events ∧
+    (metabolize guards s .oxidative (.name n) true ops).1.events = s.events := by
   simp [executeToolCall, metabolize, oxidative, hl]
 
 /-- removal really removes: after `unreg n` the name is unknown -/
@@ -90,11 +210,11 @@ theorem c03_erase_lookup (r : Registry) (n : String) : (r.erase n).lookup n = no
 theorem c03_unrestricted_permits_all (t : Tool) : permitted none t = true := rfl
 
 /-- the ceiling is what the tool DECLARES: `required_capabilities`, else `capabilities`, else nothing -/
-theorem c03_empty_ceiling_runs_only_capability_free (ops : List Op) :
-    ∀ t ∈ (run guards (some []) {} ops).events, t.required = [] := by
-  intro t ht
-  have h := c03_least_privilege_subset [] ops t ht
-  cases hr : t.required with
+theorem c03_empty_ceiling_runs_only_capability_free (ops : List Op) (hno : ∀ op ∈ ops, op.isSetCeiling = false) :
+    ∀ e ∈ (run guards (init (some [])) ops).events, e.tool.required = [] := by
+  intro e he
+  have h := c03_least_privilege_subset [] ops hno e he
+  cases hr : e.tool.required with
   | nil => rfl
   | cons c cs => exact absurd (h c (by simp [hr])) (by simp)
 
@@ -102,20 +222,46 @@ theorem c03_empty_ceiling_runs_only_capability_free (ops : List Op) :
 
 private def tWrite : Tool := ⟨1, some [3], none, false⟩     -- requires capability #3
 private def tFree : Tool := ⟨2, some [], none, false⟩
+private def tGpu : Tool := ⟨2, some [6], none, false⟩       -- same callable as `tFree`, declares the foreign tag #6
 
 /-- a history in which a permitted tool does run and a forbidden one is refused on all three entry points -/
 example :
-    (run ⟨true, true⟩ (some []) {}
-      [.register "w" tWrite, .register "f" tFree, .call "w", .call "f",
-       .metabolize .oxidative (.name "w") true, .loop 3 true [["w", "f"], ["w"]]]).events = [tFree, tFree] := by
+    (run ⟨true, true⟩ (init (some []))
+      [.register "w" tWrite, .register "f" tFree, .call "w" [], .call "f" [],
+       .metabolize .oxidative (.name "w") true [],
+       .loop 3 true [⟨[], [("w", []), ("f", [])]⟩, ⟨[], [("w", [])]⟩]]).events.map (·.tool) = [tFree, tFree] := by
+  decide
+
+/-- the same callable registered again with a tighter declaration: it ran before, it is refused afterwards -/
+example :
+    (run ⟨true, true⟩ (init (some [0]))
+      [.register "f" tFree, .call "f" [], .register "f" tGpu, .call "f" [],
+       .metabolize .oxidative (.name "f") true []]).events.map (·.tool) = [tFree] := by
+  decide
+
+/-- in-flight re-registration: the harmless tool that was vetted runs, the privileged one that took its name during
+    argument evaluation does not - neither in this request nor in the next one -/
+example :
+    let s := run ⟨true, true⟩ (init (some []))
+      [.register "f" tFree, .metabolize .oxidative (.name "f") true [.register "f" tWrite], .call "f" []]
+    s.events.map (·.tool) = [tFree] ∧ s.reg.lookup "f" = some tWrite := by
+  decide
+
+/-- the ceiling re-assigned on the live engine: each execution is judged against the ceiling in force -/
+example :
+    (run ⟨true, true⟩ (init (some []))
+      [.register "w" tWrite, .call "w" [], .setCeiling (some [3]), .call "w" [], .setCeiling (some []), .call "w" []]
+      ).events = [⟨tWrite, some [3]⟩] := by
   decide
 
 /-- hypotheses of the refusal theorems are satisfiable -/
-example : (({ reg := [("w", tWrite)] } : St).reg.lookup "w" = some tWrite) ∧ permitted (some []) tWrite = false := by
+example : (({ reg := [("w", tWrite)], allowed := some [] } : St).reg.lookup "w" = some tWrite) ∧
+    permitted (some []) tWrite = false := by
   decide
 
 /-- witness for the unguarded shape (the pinned `execute_tool_call`): without the guard the forbidden tool runs -/
 theorem c03_unguarded_call_witness :
-    (run ⟨true, false⟩ (some []) {} [.register "w" tWrite, .call "w"]).events = [tWrite] := by decide
+    (run ⟨true, false⟩ (init (some [])) [.register "w" tWrite, .call "w" []]).events.map (·.tool) = [tWrite] := by
+  decide
 
 end Operon.MitoTools
